@@ -9,6 +9,7 @@ import z3
 from . import libmodels
 from . import pdagg  # noqa: F401  (registers the aggregate model)
 from . import sortedindex  # noqa: F401  (registers the sorted-index model)
+from . import rowwise  # noqa: F401  (registers the row-wise model)
 from .engine import Run, _Break, _Continue, _Return
 from .values import (SArr, UNDEF, MaybeUnbound, PathDead, SBoundLib, SClass, SEnumMember, SExcClass, SFunc, SIdx,
                      SLib, SObj, SOpaque, SSel, SSeq, SStr, SVec, SymRaise, Undefined, Unsupported,
@@ -865,6 +866,8 @@ class Interp:
             return bool(v)
         if isinstance(v, SSeq):
             return v.length() > 0
+        if isinstance(v, SStr):
+            return z3.Length(v.expr) > 0
         if isinstance(v, (SObj, SFunc, SClass, SEnumMember)):
             return True
         if hasattr(v, "sym_truth"):
